@@ -1,17 +1,23 @@
 #!/usr/bin/env python3
 """Rewrites the table of DESIGN.md §11.2 from seeded/*/meta.json."""
 import json, glob, os, re
-V = os.path.join(os.path.dirname(os.path.abspath(__file__)), "..")
-rows = []
-for f in sorted(glob.glob(os.path.join(V, "seeded", "*", "meta.json"))):
-    m = json.load(open(f))
-    def cell(s): return re.sub(r"\s+", " ", str(s)).replace("|", "/")[:330]
-    rows.append(f"| {m['id']} | {cell(m.get('summary',''))} | {cell(m.get('needs',''))} | {cell(m.get('detection',''))} |")
-table = "| id | change | needs | result of running the checks against it |\n|---|---|---|---|\n" + "\n".join(rows) + "\n"
-p = os.path.join(V, "DESIGN.md")
-s = open(p).read()
-start = s.index("| id | change | needs |")
-end = s.index("\n\n", start)
-s = s[:start] + table.rstrip("\n") + s[end:]
-open(p, "w").write(s)
-print(len(rows), "seeded changes in the table")
+
+def main():
+    V = os.path.join(os.path.dirname(os.path.abspath(__file__)), "..")
+    rows = []
+    for f in sorted(glob.glob(os.path.join(V, "seeded", "*", "meta.json"))):
+        m = json.load(open(f))
+        def cell(s): return re.sub(r"\s+", " ", str(s)).replace("|", "/")[:330]
+        rows.append(f"| {m['id']} | {cell(m.get('summary',''))} | {cell(m.get('needs',''))} | {cell(m.get('detection',''))} |")
+    table = "| id | change | needs | result of running the checks against it |\n|---|---|---|---|\n" + "\n".join(rows) + "\n"
+    p = os.path.join(V, "DESIGN.md")
+    s = open(p).read()
+    start = s.index("| id | change | needs |")
+    end = s.index("\n\n", start)
+    s = s[:start] + table.rstrip("\n") + s[end:]
+    open(p, "w").write(s)
+    print(len(rows), "seeded changes in the table")
+
+
+if __name__ == "__main__":
+    main()
